@@ -181,6 +181,17 @@ func runReplays(eng *sx.Engine, pkgPath string, files []string, race bool) (map[
 			}
 		}
 	}
+	// subtests failed by the race detector
+	for _, line := range strings.Split(txt, "\n") {
+		line = strings.TrimSpace(line)
+		if strings.HasPrefix(line, "--- FAIL: TestVerifReplay/") {
+			name := strings.Fields(strings.TrimPrefix(line, "--- FAIL: TestVerifReplay/"))[0]
+			orig := link[filepath.Join(rdir, name)]
+			if orig != "" && out[orig] == "ok" && strings.Contains(txt, "WARNING: DATA RACE") {
+				out[orig] = "race: reported by go test -race"
+			}
+		}
+	}
 	if len(out) < len(files) {
 		return out, fmt.Errorf("replay run produced %d of %d results; output:\n%s", len(out), len(files), tail(txt, 40))
 	}
@@ -404,7 +415,7 @@ func cmdRun(args []string) int {
 			case rf.Kind == "panic":
 				reproduced = strings.HasPrefix(outc, "panic:")
 			default:
-				reproduced = outc == "assert-failed: "+rf.Label
+				reproduced = outc == "assert-failed: "+rf.Label || (strings.HasPrefix(rf.Label, "monitor:") && strings.HasPrefix(outc, "race:"))
 			}
 			if !reproduced {
 				unconfirmed++
